@@ -44,6 +44,8 @@ inductive Tree where
   | typed (o : Nat) (l : Tree) (n : Nat)
   /-- postfix bracket: predicate `l[e]`, dynamic call `l(e)` -/
   | post (o c : Nat) (l e : Tree)
+  /-- arrow application `l => f a` (3.1 [29]): function specifier `f`, argument list `a` -/
+  | arrow (o : Nat) (l f a : Tree)
   deriving Repr, DecidableEq, Inhabited
 
 /-- the token sequence a tree was built from (in-order traversal) -/
@@ -55,6 +57,7 @@ def Tree.yield : Tree → List Tok
   | .bin o l r => l.yield ++ .op o :: r.yield
   | .typed o l n => l.yield ++ [.op o, .ty n]
   | .post o c l e => l.yield ++ .op o :: (e.yield ++ [.close c])
+  | .arrow o l f a => l.yield ++ .op o :: (f.yield ++ a.yield)
 
 def Tree.size : Tree → Nat
   | .nil => 1
@@ -64,6 +67,7 @@ def Tree.size : Tree → Nat
   | .bin _ l r => l.size + r.size + 1
   | .typed _ l _ => l.size + 1
   | .post _ _ l e => l.size + e.size + 1
+  | .arrow _ l f a => l.size + f.size + a.size + 1
 
 def Tree.isNil : Tree → Bool | .nil => true | _ => false
 def Tree.isTyped : Tree → Bool | .typed .. => true | _ => false
@@ -74,6 +78,12 @@ def Tree.isKeySpec : Tree → Bool
   | .atom k _ => k == 0 || k == 1 || k == 7 || k == 6
   | .group .. => true
   | _ => false
+/-- ArrowFunctionSpecifier (3.1 [55]): EQName | VarRef | ParenthesizedExpr (operand kinds 0, 7, 8 are names, 2 variables) -/
+def Tree.isArrowSpec : Tree → Bool
+  | .atom k _ => k == 0 || k == 2 || k == 7 || k == 8
+  | .group .. => true
+  | _ => false
+def Tree.isGroup : Tree → Bool | .group .. => true | _ => false
 
 /-- head code of a tree / token, used by guards: atom kind `k` ↦ `2k+2`, operator symbol `o` ↦ `2o+1` -/
 def Tree.head : Tree → Nat
@@ -84,6 +94,7 @@ def Tree.head : Tree → Nat
   | .bin o _ _ => 2 * o + 1
   | .typed o _ _ => 2 * o + 1
   | .post o _ _ _ => 2 * o + 1
+  | .arrow o _ _ _ => 2 * o + 1
 
 /-! ### the lexical constraint on occurrence indicators -/
 
@@ -123,6 +134,8 @@ inductive Kind where
   | bracket (close : Nat) (emptyOk : Bool)
   /-- `E_k ::= E_{k+1} ("?" KeySpecifier)*` -/
   | key
+  /-- `E_k ::= E_{k+1} ("=>" ArrowFunctionSpecifier ArgumentList)*` -/
+  | arrow
   deriving Repr, DecidableEq, Inhabited
 
 /-- kind of a whole level -/
@@ -223,8 +236,8 @@ def levels30 : List Level := [
 
 /-- XPath 3.1 A.1: [6] Expr, [16] OrExpr, [17] AndExpr, [18] ComparisonExpr, [19] StringConcatExpr,
 [20] RangeExpr, [21] AdditiveExpr, [22] MultiplicativeExpr, [23] UnionExpr, [24] IntersectExceptExpr,
-[25] InstanceofExpr, [26] TreatExpr, [27] CastableExpr, [28] CastExpr, [29] ArrowExpr (not in the
-modelled fragment; its level is listed so that its binding power is checked), [30] UnaryExpr,
+[25] InstanceofExpr, [26] TreatExpr, [27] CastableExpr, [28] CastExpr, [29]
+ArrowExpr ::= UnaryExpr ( "=>" ArrowFunctionSpecifier ArgumentList )*: the symbol `=>` gets `Kind.arrow`), [30] UnaryExpr,
 [35] SimpleMapExpr, [37] RelativePathExpr, [49] PostfixExpr ::= PrimaryExpr (Predicate | ArgumentList | Lookup)* -/
 def levels31 : List Level := [
   ⟨"Expr", .left, [","]⟩,
@@ -270,7 +283,7 @@ def findLevel (pfx : Bool) (s : String) : List Level → Nat → Option (Nat × 
   | l :: ls, i => if (l.kind == .prefix) == pfx && l.ops.contains s then some (i, l.kind) else findLevel pfx s ls (i + 1)
 
 def kindOf (emptyParens : Bool) (s : String) : LKind → Option Kind
-  | .left => some .left
+  | .left => if s == "=>" then some .arrow else some .left
   | .none => some .none
   | .typed => some .typed
   | .postfix => match bracketInfo emptyParens s with
@@ -307,6 +320,7 @@ def lvl (G : Gram) : Tree → Nat
   | .bin o _ _ => ((G.led o).map (·.1)).getD 0
   | .typed o _ _ => ((G.led o).map (·.1)).getD 0
   | .post o _ _ _ => ((G.led o).map (·.1)).getD 0
+  | .arrow o _ _ _ => ((G.led o).map (·.1)).getD 0
 
 /--
 Well-formedness of every node with respect to the level table.
@@ -325,7 +339,9 @@ Well-formedness of every node with respect to the level table.
   operand of any prefix operator;
 * L2: an operand whose top operator is a typed operator is accepted as left operand of any operator
   (`a instance of T treat as T`, `1 cast as T cast as T`, `a cast as T[1]`);
-* L3: an optional-once operator accepts a left operand of its own level (`a = b eq c`, `a << b << c`).
+* L3: an optional-once operator accepts a left operand of its own level (`a = b eq c`, `a << b << c`);
+* L4: the function specifier and the argument list of `=>` are any expressions of a higher level than `=>`
+  (`a => $f?k(1)`, `a => $f(1)(2)`).
 -/
 def wf (strict : Bool) (G : Gram) : Tree → Bool
   | .nil => false
@@ -359,6 +375,14 @@ def wf (strict : Bool) (G : Gram) : Tree → Bool
       | some (j, .bracket c' eo) =>
           c == c' && (decide (j ≤ lvl G l) || (!strict && l.isTyped)) && wf strict G l
             && ((e.isNil && eo) || wf strict G e)
+      | _ => false
+  | .arrow o l f a =>
+      match G.led o with
+      | some (j, .arrow) =>
+          (decide (j ≤ lvl G l) || (!strict && l.isTyped))
+            && (f.isArrowSpec || (!strict && (decide (j + 1 ≤ lvl G f) || f.isPre)))
+            && (a.isGroup || (!strict && (decide (j + 1 ≤ lvl G a) || a.isPre)))
+            && wf strict G l && wf strict G f && wf strict G a
       | _ => false
 
 /-- `t` is a derivation from the level-`k` nonterminal of the EBNF -/
@@ -442,6 +466,15 @@ def ebnfTail (G : Gram) : Nat → Nat → LKind → Tree → List Tok → Option
             match ebnf G f G.top rest with
             | some (r, rest') => if r.isKeySpec then ebnfTail G f k lk (.bin o l r) rest' else none
             | none => none
+          | .arrow =>
+            match ebnf G f G.top rest with
+            | some (s, rest1) =>
+              if s.isArrowSpec then
+                match ebnf G f G.top rest1 with
+                | some (a, rest2) => if a.isGroup then ebnfTail G f k lk (.arrow o l s a) rest2 else none
+                | none => none
+              else none
+            | none => none
         else some (l, toks)
       | none => some (l, toks)
     | _ => some (l, toks)
@@ -474,5 +507,8 @@ def laxFree (G : Gram) : Tree → Bool
       (match G.led o with | some (j, .typed) => decide (j + 1 ≤ lvl G l) | _ => true) && laxFree G l
   | .post o _ l e =>
       (match G.led o with | some (j, .bracket _ _) => decide (j ≤ lvl G l) | _ => true) && laxFree G l && laxFree G e
+  | .arrow o l f a =>
+      (match G.led o with | some (j, .arrow) => decide (j ≤ lvl G l) && f.isArrowSpec && a.isGroup | _ => true)
+        && laxFree G l && laxFree G f && laxFree G a
 
 end EPV.Syn
